@@ -150,9 +150,9 @@ Example duplicate_typedef_rejected :
   translate id_oracle (fun l => l) [mk NType nameA KPlain []; mk NType nameA KPlain []] = Err.
 Proof. reflexivity. Qed.
 
-(* KF-10: an alias to an undefined type is a crash, not an error *)
-Example alias_to_undefined_panics :
-  translate id_oracle (fun l => l) [mk NType nameA (KAlias nameB) []] = Panic.
+(* KF-10 (fixed in e8258c9): an alias to an undefined type is an error *)
+Example alias_to_undefined_rejected :
+  translate id_oracle (fun l => l) [mk NType nameA (KAlias nameB) []] = Err.
 Proof. reflexivity. Qed.
 (* a self-referential alias chain is an error *)
 Example alias_cycle_rejected :
